@@ -1418,6 +1418,11 @@ class Engine:
                 continue      # definitional axiom of a ghost predicate, not a caller obligation
             self.oblige(st, f, 'pre', '%s.%s@L%s' % (short, label, line),
                         props=sorted(set(con.props) | set(self.cur_contract.props)), line=line)
+        cg = (getattr(self.cur_contract, 'call_guards', None) or {}).get(short)
+        if cg is not None:
+            for (label, f, props) in cg(self, st, cargs):
+                self.oblige(st, f, 'guard', '%s.%s@L%s' % (short.split('.')[-1], label, line),
+                            props=props, line=line)
         # recursion: termination measure
         if self.cur is not None and fi.qualname == self.cur.qualname and con.decreases is not None:
             d_callee = con.decreases(c0)
@@ -1648,6 +1653,10 @@ class Engine:
             if isinstance(con.returns, Ty) and con.returns.kind == 'opt' \
                     and res.ty.sort() == con.returns.args[0].sort():
                 return con.returns.sort().some(res.t)
+            if isinstance(con.returns, Ty) and res.ty.kind == 'opt' \
+                    and res.ty.args[0].sort() == con.returns.sort():
+                self.oblige(st, res.ty.sort().is_some(res.t), 'type', 'returns-not-None')
+                return res.ty.sort().val(res.t)
             if isinstance(con.returns, Ty) and con.returns.kind == 'pyv' and res.ty.kind != 'pyv':
                 return self.intr.to_pyv(res)
             if isinstance(con.returns, Ty) and con.returns.kind == 'str' and res.ty.kind == 'pyv':
